@@ -98,6 +98,12 @@ UNITS = [
       ("S_ValidMax", "_HDF_ValidMax", "strlen(_HDF_ValidMax)"), ("S_ValidMin", "_HDF_ValidMin", "strlen(_HDF_ValidMin)"),
       ("S_FillValue", "_FillValue", "strlen(_FillValue)"), ("S_fakeDim", "\"fakeDim\"", "7"),
       ("S_ATTRIBUTE", "_HDF_ATTRIBUTE", "strlen(_HDF_ATTRIBUTE)"), ("S_ATTR_FIELD_NAME", "ATTR_FIELD_NAME", "strlen(ATTR_FIELD_NAME)")]),
+    # C09 region part: what GRIupdatemeta stores in / GRIget_image_list decodes from the NT record of an image
+    ("Gr", '#include "hdf_priv.h"\n#include "mfgr.h"\n'
+     'static const int32 gr_nt_codes[10] = {DFNT_UCHAR8, DFNT_CHAR8, DFNT_FLOAT32, DFNT_FLOAT64, DFNT_INT8, DFNT_UINT8, DFNT_INT16, DFNT_UINT16, DFNT_INT32, DFNT_UINT32};\n'
+     'static long long *gr_pnsc(void) { static long long t[10]; for (int i = 0; i < 10; i++) t[i] = DFKgetPNSC(gr_nt_codes[i], DF_MT); return t; }\n',
+     ["DFNTF_HDFDEFAULT", "DFNTF_PC", "DFNTC_BYTE", "DFNT_NONE"],
+     [("NT_CODES", "gr_nt_codes", "10"), ("NT_PNSC", "gr_pnsc()", "10")]),
     ("Bitvect", '#include "hdf_priv.h"\n#include "%s/bitvect.c"\n' % HS,
      ["BV_DEFAULT_BITS", "BV_CHUNK_SIZE", "BV_BASE_BITS"],
      [("bv_first_zero", "bv_first_zero", "256"), ("bv_bit_value", "bv_bit_value", "8"), ("bv_bit_mask", "bv_bit_mask", "9")]),
@@ -338,7 +344,7 @@ def main():
         digest[fn] = hashlib.sha256(txt.encode()).hexdigest()[:16]
     for rel in ["hdf/src/hfile_priv.h", "hdf/src/hdf.h", "hdf/src/htags.h", "hdf/src/hlimits.h", "hdf/src/hntdefs.h", "hdf/src/crle.c",
                 "hdf/src/crle_priv.h", "hdf/src/atom.c", "hdf/src/bitvect.c", "hdf/src/bitvect_priv.h", "hdf/src/vg_priv.h", "hdf/src/hcomp.h", "hdf/src/mfan_priv.h", "hdf/src/mfan.c", "hdf/src/vgp.c", "hdf/src/vg.c",
-                "hdf/src/mcache.c", "hdf/src/mcache_priv.h", "hdf/src/hbitio.c", "hdf/src/hbitio_priv.h", "hdf/src/cnbit.c", "hdf/src/cnbit_priv.h", "hdf/src/cskphuff.c", "hdf/src/cskphuff_priv.h", "hdf/src/dfkswap.c", "hdf/src/dfknat.c", "hdf/src/dfconv.c",
+                "hdf/src/mcache.c", "hdf/src/mcache_priv.h", "hdf/src/mfgr.c", "hdf/src/mfgr.h", "hdf/src/hbitio.c", "hdf/src/hbitio_priv.h", "hdf/src/cnbit.c", "hdf/src/cnbit_priv.h", "hdf/src/cskphuff.c", "hdf/src/cskphuff_priv.h", "hdf/src/dfkswap.c", "hdf/src/dfknat.c", "hdf/src/dfconv.c",
                 "hdf/src/mfgr_priv.h", "hdf/src/vattr.c", "hdf/src/mfgr.c", "mfhdf/src/mfsd.c", "mfhdf/src/attr.c", "mfhdf/src/cdf.c"]:
         p = os.path.join(repo, rel)
         if os.path.exists(p):
